@@ -769,6 +769,14 @@ def _prepare_tags_and_urls(
         # which means that we are NOT going to load / inline it again.
         comp_cls = comp_hash_mapping[comp_cls_hash]
 
+        # NOTE: The HTML may have been rendered earlier (e.g. pre-rendered and then inserted into another
+        #       component), and the scripts may have been evicted from the cache since then. So we ensure
+        #       that the scripts are cached before we inline them or tell the client to fetch them.
+        if input_hash is None:
+            cache_component_js(comp_cls) if script_type == "js" else cache_component_css(comp_cls)
+        elif not _is_script_in_cache(comp_cls, script_type, input_hash):
+            _cache_script(comp_cls, "", script_type, input_hash)  # TODO - enable JS and CSS vars
+
         if type == "document":
             # NOTE: Skip fetching of inlined JS/CSS if it's not defined or empty for given component
             #
